@@ -15,6 +15,7 @@
      Manager.filterCandidateFiles + GetFilesInManifests -> filter_candidates / tracked
      SplitCandidateIntoBatches, clampFilesPerBatch -> split_batches / clamp
      Manager.compactFilesAdaptively, ClassifySubprocessError (killed => recoverable) -> adaptive
+                                      (incl. the tracked-by-a-manifest check before a retry)
      Manager.runCycleInternal (one partition, one tier, MaxConcurrent = 1) -> cycle
    The DuckDB COPY (buildCompactionQuery) is the oracle [compact]. *)
 From Coq Require Import List NArith Bool Arith.
@@ -77,8 +78,13 @@ Definition meta_in (l : list (path * file)) (p : path) : bool :=
 Definition has_file (l : list (path * file)) (p : path) : bool :=
   match lookup p l with Some _ => true | None => false end.
 
+(* every path a manifest mentions: its output and its inputs (GetFilesInManifests) *)
+Definition tracked_of (ms : list (path * manifest)) : list path :=
+  flat_map (fun km => m_out (snd km) :: m_inputs (snd km)) ms.
+
+(* output names embed a nanosecond clock: a new name is above every name still known *)
 Definition fresh_path (s : state) : path :=
-  N.succ (maxN (keys (files s) ++ map (fun km => m_out (snd km)) (mans s))).
+  N.succ (maxN (keys (files s) ++ tracked_of (mans s))).
 Definition fresh_man (s : state) : path := N.succ (maxN (keys (mans s))).
 
 Definition size_of (rows : list row) : N := N.succ (N.of_nat (length rows)).
@@ -120,12 +126,14 @@ Section Compaction.
     | PhDeleteManifest => [SDelMan mp]
     end.
 
-  Definition job_steps (ins : list path) (s : state) : list step :=
+  Definition job_steps_named (out mp : path) (ins : list path) (s : state) : list step :=
     let pres := present s ins in
     match pres with
     | [] => []
-    | _ => flat_map (phase_steps (fresh_path s) (fresh_man s) (job_output s pres) pres) ord
+    | _ => flat_map (phase_steps out mp (job_output s pres) pres) ord
     end.
+  Definition job_steps (ins : list path) (s : state) : list step :=
+    job_steps_named (fresh_path s) (fresh_man s) ins s.
 
   (* recoverManifest *)
   Definition recover_steps (mp : path) (m : manifest) (s : state) : list step :=
@@ -148,8 +156,7 @@ Section Compaction.
     (c_min_files cfg <=? length (files s)) && (c_min_files cfg <=? length (uncompacted (files s))).
 
   (* GetFilesInManifests: inputs and outputs of every manifest *)
-  Definition tracked (s : state) : list path :=
-    flat_map (fun km => m_out (snd km) :: m_inputs (snd km)) (mans s).
+  Definition tracked (s : state) : list path := tracked_of (mans s).
   Definition filter_candidates (s : state) (l : list path) : list path :=
     filter (fun p => negb (memb p (tracked s))) l.
 
@@ -203,7 +210,10 @@ Section Compaction.
         | JStop => (s1, ocs1, RStop)
         | JPermanent => (s1, ocs1, RErr)
         | JRecoverable =>
-          if length ins <=? p_min_batch pr then (s1, ocs1, RErr)
+          (* the failed attempt left a manifest tracking this batch: defer to manifest
+             recovery instead of retrying (invalidateCache + GetFilesInManifests) *)
+          if existsb (fun p => memb p (tracked s1)) ins then (s1, ocs1, RErr)
+          else if length ins <=? p_min_batch pr then (s1, ocs1, RErr)
           else
             let mid := length ins / 2 in
             let '(s2, ocs2, r2) := adaptive fuel' (S depth) (firstn mid ins) ocs1 s1 in
